@@ -840,3 +840,103 @@ def c12_oracle(case, impl):
     if sorted(body) != sorted(single.values()):
         return "header tags differ from the supplied ones: got %s expected %s" % ([x.hex()[:32] for x in body][:4], [x.hex()[:32] for x in single.values()][:4])
     return None
+
+
+# ------------------------------------------------------------------------------------------------ C11 / C09 (header crate)
+
+H_SECTIONS = {"inforeq": 1, "address": 2, "entry": 3, "console": 4, "fb": 5, "modalign": 6, "efibs": 7, "efi32": 8, "efi64": 9, "reloc": 10}
+H_SPEC_FIELDS = {
+    "address": [("header_addr", 8, 4), ("load_addr", 12, 4), ("load_end_addr", 16, 4), ("bss_end_addr", 20, 4)],
+    "entry": [("entry_addr", 8, 4)], "efi32": [("entry_addr", 8, 4)], "efi64": [("entry_addr", 8, 4)],
+    "console": [("console_flags", 8, 4)], "fb": [("width", 8, 4), ("height", 12, 4), ("depth", 16, 4)],
+    "modalign": [], "efibs": [], "reloc": [("min_addr", 8, 4), ("max_addr", 12, 4), ("align", 16, 4), ("preference", 20, 4)],
+}
+H_SPEC_SIZE = {2: 24, 3: 12, 4: 12, 5: 20, 6: 8, 7: 8, 8: 12, 9: 12, 10: 24, 0: 8}
+
+
+def hspec_walk(region):
+    length = le(region, 8, 4)
+    off = 16
+    out = []
+    while True:
+        if off == length:
+            return out, "done"
+        if off + 8 > length:
+            return out, "bad"
+        typ, fl, size = le(region, off, 2), le(region, off + 2, 2), le(region, off + 4, 4)
+        if size < 8 or off + r8(size) > length:
+            return out, "bad"
+        out.append((off, typ, size, fl))
+        off += r8(size)
+
+
+def hvalid(region):
+    if len(region) < 16:
+        return False
+    m, a, l, c = (le(region, i, 4) for i in (0, 4, 8, 12))
+    return l >= 16 and l % 8 == 0 and l <= len(region) and m == 0xE85250D6 and (m + a + l + c) % (1 << 32) == 0 and a in (0, 4)
+
+
+def c11_oracle(case, impl):
+    region = region_of(case)
+    secs = sections(impl)
+    if not hvalid(region):
+        return None
+    m, a, l, c = (le(region, i, 4) for i in (0, 4, 8, 12))
+    if secs.get("ld") != "ok(%d:%d:%d:%d:true)" % (m, a, l, c):
+        return "header accessors: got %s, stored magic/arch/length/checksum are %d/%d/%d/%d" % (secs.get("ld"), m, a, l, c)
+    walk, wend = hspec_walk(region)
+    exp_tags = "".join("%d:%d:%d:%d:%d," % (o, t, fl, s, s - 8) for (o, t, s, fl) in walk) + ("|done" if wend == "done" else "|panic")
+    if secs.get("tags") != exp_tags:
+        return "tag iterator differs from the spec walk: got %s expected %s" % (secs.get("tags", "")[:160], exp_tags[:160])
+    if wend != "done":
+        return None
+    conform = all((t in H_SPEC_SIZE and s == H_SPEC_SIZE[t]) or (t == 1 and (s - 8) % 4 == 0) for (o, t, s, fl) in walk) and \
+        all(t <= 10 and fl <= 1 for (o, t, s, fl) in walk)
+    if not conform:
+        return None
+    for name, typ in H_SECTIONS.items():
+        ft = next(((o, t, s, fl) for (o, t, s, fl) in walk if t == typ), None)
+        val = secs.get(name)
+        if ft is None:
+            if val != "-":
+                return "%s: absent but getter returned %s" % (name, str(val)[:60])
+            continue
+        o, t, s, fl = ft
+        if typ == 4 and le(region, o + 8, 4) > 1 or typ == 10 and le(region, o + 20, 4) > 2:
+            continue
+        if name == "inforeq":
+            n = (s - 8) // 4
+            body = "typ=1,flags=%d,size=%d,requests=[%d:%d|%s],debug=true," % (fl, s, o + 8, n, ":".join(str(le(region, o + 8 + 4 * i, 4)) for i in range(n)))
+        else:
+            body = "typ=%d,flags=%d,size=%d," % (typ, fl, s) + "".join("%s=%d," % (fn, le(region, o + fo, w)) for (fn, fo, w) in H_SPEC_FIELDS[name]) + "debug=true,"
+        exp = "@%d:%d{%s}" % (o, r8(s), body)
+        if val != exp:
+            return "%s: got %s, the specification gives %s" % (name, str(val)[:200], exp[:200])
+    return None
+
+
+def c09_oracle(case, impl):
+    if impl.startswith("crash") or impl == "harness-panic":
+        return "the process crashed / the harness lost control"
+    region = region_of(case)
+    secs = sections(impl)
+    if not secs.get("ld", "").startswith("ok"):
+        return None
+    length = le(region, 8, 4)
+    walk, wend = hspec_walk(region)
+    tags = {o: s for (o, t, s, fl) in walk}
+    for name, val in secs.items():
+        v = view_of(val)
+        if v:
+            o, sov = v
+            if o not in tags:
+                return "%s: view at %d is not a tag of the walk" % (name, o)
+            if sov != r8(tags[o]) or o + sov > length:
+                return "%s: view of %d bytes over a tag of size %d (declared length %d)" % (name, sov, tags[o], length)
+            m = re.search(r"requests=\[(\d+):(\d+)\|", val)
+            if m:
+                ro, rn = int(m.group(1)), int(m.group(2))
+                if ro != o + 8 or ro + 4 * rn != o + tags[o]:
+                    return "%s: request list [%d,%d) but the tag content is [%d,%d)" % (name, ro, ro + 4 * rn, o + 8, o + tags[o])
+    return None
